@@ -1,10 +1,12 @@
 (* C20 — the thread-pool form of apply (_fast_apply(num_threads=n)):
      base.py::_multithread_apply_nest   flat phase (submit one task per leaf), then rebuild
      _td.py::_multithread_apply_flat    futures appended to the flat list and to the nested `local_futures`;
-                                        the nested call forwards neither default= nor call_on_nested=
-     _td.py::_multithread_rebuild       zip(self.keys(), local_futures); the nested rebuild receives the ROOT out and the
-                                        ROOT names; `filter_empty and not any_set` (None counts as False); the result is
-                                        created eagerly
+                                        the nested call forwards default= (not call_on_nested=, as _apply_nest)
+     _td.py::_multithread_rebuild       zip(self.keys(), local_futures); the nested rebuild receives out[key]; names= is
+                                        not forwarded; the filter_empty rule of _apply_nest; the result is created eagerly;
+                                        non-tensor entries go through the tensorclass wrapper (a new entry with self's data)
+   (as of the repairs of S15 / S16 / C12-b / C12-c / C20-d; before them: default= dropped below the root, the ROOT out and
+    the ROOT names handed to every nested rebuild, `filter_empty and not any_set` only, device != out.device always raised)
    Tasks complete in an arbitrary order [pi]; the rebuild reads each result with Future.result().
    Definitions only. *)
 From Coq Require Import ZArith List String Bool.
@@ -32,9 +34,9 @@ Fixpoint flat_items (dflt con : bool) (prefix : list string) (sm : meta) (sf : f
           bind (others_node A dflt sm sf others k) (fun others' =>
           match item with
           | Node _ im g =>
-              (* item._multithread_apply_flat(fn, *_others, named=…, nested_keys=…, prefix=…, is_leaf=…, …):
-                 default= and call_on_nested= are not forwarded *)
-              bind (flat_items false false (prefix ++ [k])%list im g others' g base) (fun tl => Ok (fst tl, LList (snd tl)))
+              (* item._multithread_apply_flat(fn, *_others, default=…, named=…, nested_keys=…, prefix=…, is_leaf=…, …):
+                 call_on_nested= is not forwarded (as in _apply_nest) *)
+              bind (flat_items dflt false (prefix ++ [k])%list im g others' g base) (fun tl => Ok (fst tl, LList (snd tl)))
           | NonT _ _ _ => Ok ([], LList [])          (* a non-tensor entry holds no tensor: no task *)
           | Leaf _ _ => Raised EAttr
           end)
@@ -59,7 +61,7 @@ Fixpoint log_get (log : list (nat * option A)) (id : nat) : option (option A) :=
 Inductive mres (X : Type) :=
 | MOk (x : X)
 | MRaised (e : err)
-| MCyclic            (* out[key] = out: the structure that is returned contains itself *)
+| MCyclic            (* (before the repair of S16) out[key] = out: the structure that is returned contains itself *)
 | MStuck             (* a future that never completes / positional mismatch (zip strict) *)
 | MUnmodelled.
 Arguments MOk {X} x.
@@ -73,32 +75,36 @@ Definition of_res {X} (r : res X) : mres X :=
   match r with Ok x => MOk x | Raised e => MRaised e | Unmodelled => MUnmodelled end.
 
 Variable log : list (nat * option A).
-Variable names : option dnames.           (* the ROOT names=, handed to every nested rebuild *)
 
 (* the three setters of _multithread_rebuild *)
 Definition set_item_mt (r : racc A) (k : string) (v : tree A) : res (racc A) :=
   if o_checked o && negb (o_inplace o) then Ok (mkAcc A (r_obj A r) (r_meta A r) (fset A (r_f A r) k v))   (* result._tensordict[key] = item_trsf *)
   else set_item A o r k v.
 
-(* the beginning of _multithread_rebuild; [root_out] is the out= of the ROOT call *)
-Definition rebuild_init (so : obj) (sm : meta) (sf : forest A) (out : option (racc A)) : res (racc A) :=
-  if o_inplace o then Ok (mkAcc A so sm sf)
-  else match out with
-       | None => Ok (make_result A o sm names)
-       | Some r =>
-           if m_lock (r_meta A r) then Raised ERuntime
-           else if match o_bs o with Some b => negb (list_eqb Nat.eqb b (m_bs (r_meta A r))) | None => false end then Raised ERuntime
-           else match o_dev o with
-                | Some d => if odev_eqb d (m_dev (r_meta A r)) then Ok r else Raised ERuntime
-                | None => Ok r
-                end
-       end.
+(* the beginning of _multithread_rebuild: the same choices and checks as _apply_nest, the result created at once *)
+Definition rebuild_init (so : obj) (sm : meta) (sf : forest A) (out : option (tree A)) (names : option dnames) : res (racc A) :=
+  bind (level_init A o so sm sf out) (fun i => Ok (match i with Some a => a | None => make_result A o sm names end)).
 
-Definition fe_true : bool := match o_fe o with Some true => true | _ => false end.
+(* a non-tensor entry: tensorclass._multithread_rebuild rebuilds the (empty) wrapped tensordict — into out[key] when
+   there is one — and re-wraps it with the data of self's entry *)
+Definition nont_rebuild (d : Z) (im : meta) (out_k : option (tree A)) : res (tree A) :=
+  match out_k with
+  | None => Ok (NonT New d (result_meta o im None))
+  | Some (Leaf _ _) => Raised EAttr
+  | Some (NonT oo _ om) =>
+      bind (level_init A o New im FNil (Some (Node oo om FNil))) (fun i =>
+      Ok (NonT New d (match i with Some a => r_meta A a | None => om end)))
+  | Some (Node oo om og) =>
+      bind (level_init A o New im FNil (Some (Node oo om og))) (fun i =>
+      match og with
+      | FNil => Ok (NonT New d (match i with Some a => r_meta A a | None => om end))
+      | _ => Raised EValue                 (* the keys of out[key] are not attributes of NonTensorData *)
+      end)
+  end.
 
-(* [out] = the current state of the root out object when out= is given (it is the result object of EVERY level) *)
-Fixpoint rebuild_items (out_mode : bool) (items : forest A) (lfs : list lf) (acc : racc A) (any : bool) {struct items}
-  : mres (racc A * bool) :=
+(* [out]: the out= of this level (the object being written when not in place) *)
+Fixpoint rebuild_items (out : option (tree A)) (sf : forest A) (items : forest A) (lfs : list lf) (acc : racc A) (any : bool)
+         {struct items} : mres (racc A * bool) :=
   match items, lfs with
   | FNil, [] => MOk (acc, any)
   | FCons k item rest, l :: lrest =>
@@ -107,31 +113,29 @@ Fixpoint rebuild_items (out_mode : bool) (items : forest A) (lfs : list lf) (acc
           match log_get log id with
           | None => MStuck
           | Some (Some a) =>
-              mbind (of_res (set_item_mt acc k (Leaf New (VNew a)))) (fun acc' => rebuild_items out_mode rest lrest acc' true)
-          | Some None => rebuild_items out_mode rest lrest acc any
+              mbind (of_res (set_item_mt acc k (Leaf New (VNew a)))) (fun acc' => rebuild_items out sf rest lrest acc' true)
+          | Some None => rebuild_items out sf rest lrest acc any
           end
       | LList sub =>
+          (* out._get_str(key, default=None) if out is not None else None — out is the object being written *)
+          let out_now := match out with Some _ => if o_inplace o then out else Some (acc_tree A acc) | None => None end in
+          mbind (of_res (out_child A out_now k)) (fun out_k =>
           match item with
           | Leaf _ _ => MStuck
           | Node io im g =>
-              mbind (of_res (rebuild_init io im g (if out_mode then Some acc else None))) (fun init =>
-              mbind (rebuild_items out_mode g sub init false) (fun ra =>
-              let ret := negb (fe_true && negb (snd ra)) in
-              if out_mode && negb (o_inplace o) then
-                (* the nested level wrote into the root out and returns it: out[k] = out *)
-                if ret then MCyclic else rebuild_items out_mode rest lrest (fst ra) any
-              else if ret then
-                mbind (of_res (set_item_mt acc k (acc_tree A (fst ra)))) (fun acc' => rebuild_items out_mode rest lrest acc' true)
-              else rebuild_items out_mode rest lrest acc any))
+              mbind (of_res (rebuild_init io im g out_k None)) (fun init =>
+              mbind (rebuild_items out_k g g sub init false) (fun ra =>
+              match level_finish A o im g None (Some (fst ra)) (snd ra) with
+              | Some v => mbind (of_res (set_item_mt acc k v)) (fun acc' => rebuild_items out sf rest lrest acc' true)
+              | None => rebuild_items out sf rest lrest acc any
+              end))
           | NonT io d im =>
-              (* tensorclass._multithread_rebuild: filter_empty=False; the wrapped tensordict is rebuilt and re-wrapped *)
               if o_inplace o then
-                mbind (of_res (set_item_mt acc k (NonT io d im))) (fun acc' => rebuild_items out_mode rest lrest acc' true)
-              else if out_mode then MCyclic
+                mbind (of_res (set_item_mt acc k (NonT io d im))) (fun acc' => rebuild_items out sf rest lrest acc' true)
               else
-                mbind (of_res (set_item_mt acc k (NonT New d (result_meta o im names)))) (fun acc' =>
-                rebuild_items out_mode rest lrest acc' true)
-          end
+                mbind (of_res (nont_rebuild d im out_k)) (fun v =>
+                mbind (of_res (set_item_mt acc k v)) (fun acc' => rebuild_items out sf rest lrest acc' true))
+          end)
       end
   | _, _ => MStuck
   end.
@@ -156,20 +160,10 @@ Definition mt_front (con propagate : bool) (self : tree A) (others : list (tree 
   | Node so sm sf =>
       mbind (of_res (flat_items A o (o_default o) con [] sm sf others sf 0)) (fun tl =>
       let log := run_tasks A fn (fst tl) pi in
-      let out_acc : res (option (racc A)) :=
-        match out with
-        | None => Ok None
-        | Some (Node oo om og) => Ok (Some (mkAcc A oo om og))
-        | Some (Leaf _ _) => Raised EAttr
-        | Some (NonT _ _ _) => Unmodelled
-        end in
-      mbind (of_res out_acc) (fun oa =>
-      mbind (of_res (rebuild_init A o names so sm sf oa)) (fun init =>
-      let out_mode := negb (is_none oa) in
-      mbind (rebuild_items A o log names out_mode sf (snd tl) init false) (fun ra =>
-      let any := snd ra || false in
-      let r := if fe_true o && negb any then None else Some (acc_tree A (fst ra)) in
-      MOk (if propagate && negb (o_inplace o) && m_lock sm then option_map (t_lock A) r else r)))))
+      mbind (of_res (rebuild_init A o so sm sf out names)) (fun init =>
+      mbind (rebuild_items A o log out sf sf (snd tl) init false) (fun ra =>
+      let r := level_finish A o sm sf names (Some (fst ra)) (snd ra) in
+      MOk (if propagate && negb (o_inplace o) && m_lock sm then option_map (t_lock A) r else r))))
   | _ => MUnmodelled
   end.
 
